@@ -40,3 +40,5 @@ CLAIM = dict(
     technique=('Lean 4 proof about the run-loop fold + differential correspondence of the compiled model against the '
                'real binary (exit status, stdout, stderr byte-exact)'),
 )
+
+CLAIM["text"] += ' Every third program is also run under `--pretty-print always|never` (exit status and stderr must not depend on the flag), and programs contain lines that start with a minus sign (a `-e` value like any other).'
